@@ -271,6 +271,30 @@ func gqlOut(be *config.Backend, rq reqSpec) (*gout, bool) {
 	return nil, true
 }
 
+// a client body that behaves like net/http's server side body: Close has an effect (a Read
+// after Close fails) and both are serialised by a mutex
+type serverBody struct {
+	mu     sync.Mutex
+	r      *bytes.Reader
+	closed bool
+}
+
+func (b *serverBody) Read(p []byte) (int, error) {
+	b.mu.Lock()
+	defer b.mu.Unlock()
+	if b.closed {
+		return 0, http.ErrBodyReadAfterClose
+	}
+	return b.r.Read(p)
+}
+
+func (b *serverBody) Close() error {
+	b.mu.Lock()
+	b.closed = true
+	b.mu.Unlock()
+	return nil
+}
+
 // one processed request: where its executor calls are recorded and meet
 type runState struct {
 	bar  *barrier
@@ -311,14 +335,20 @@ func newInstance(ep *config.EndpointConfig) *instance {
 				q = url.Values{"<unparsable>": {r.URL.RawQuery}}
 			}
 			s.Query = q
+			// like a real transport, the executor reads the body when it writes the request: here
+			// after every pipeline of this client request has reached its executor, so that
+			// whatever a sibling's stages did to a shared body (read, Close) has happened
+			run.bar.wait()
 			if r.Body != nil {
-				b, _ := io.ReadAll(r.Body)
+				b, err := io.ReadAll(r.Body)
 				s.Body = string(b)
+				if err != nil {
+					s.Body += "<body read error: " + err.Error() + ">"
+				}
 			}
 			run.mu.Lock()
 			run.sent[k] = append(run.sent[k], s)
 			run.mu.Unlock()
-			run.bar.wait()
 			return &http.Response{StatusCode: 200, Header: http.Header{"Content-Type": {"application/json"}},
 				Body: io.NopCloser(strings.NewReader(fmt.Sprintf(`{"k%d":1}`, k)))}, nil
 		}
@@ -347,7 +377,7 @@ func (in *instance) call(rq reqSpec, quiesce bool) runResult {
 	h0, q0, p0 := cloneMM(rq.hdr), cloneMM(rq.qry), cloneSM(rq.par)
 	req := &proxy.Request{Method: ep.Method, Headers: h0, Query: q0, Params: p0}
 	if rq.body != nil {
-		req.Body = io.NopCloser(bytes.NewReader([]byte(*rq.body)))
+		req.Body = &serverBody{r: bytes.NewReader([]byte(*rq.body))}
 	}
 	base := runtime.NumGoroutine()
 	func() {
@@ -563,9 +593,21 @@ func canonOf(sc scenario, stream string, step int, rq reqSpec) string {
 }
 
 // the statement excludes a body shared by shallow clones: never generate it
+// (all backends GET/HEAD: the pipelines hold the same reader).  It stays when at most one
+// pipeline touches it: a GraphQL query backend without concurrent calls replaces the Body of
+// its own request and never reads or closes the one it was handed.
 func inScope(ep *config.EndpointConfig, rq reqSpec) reqSpec {
 	if rq.body != nil && len(ep.Backend) > 1 && !unsafeMethod(ep) {
-		rq.body = nil
+		touchers := 0
+		for _, be := range ep.Backend {
+			opt, err := graphql.GetOptions(be.ExtraConfig)
+			if be.ConcurrentCalls >= 2 || err != nil || opt.Type != graphql.OperationQuery {
+				touchers++
+			}
+		}
+		if touchers > 1 {
+			rq.body = nil
+		}
 	}
 	return rq
 }
